@@ -263,6 +263,7 @@ Definition tag_step (ops : list op) (prev : obs) (o : op) (cur : obs) : list N :
     | OFail _ => 512
     | ORecon => 1024
     | ORefuse _ => 2048
+    | OCleanupStale _ => 4096
     | _ => 0
     end ].
 
